@@ -112,6 +112,15 @@ def gen_cases(tier, seed):
     for prog in programs(1):
         for sh in ([2], [2, 1]):
             cases.append(dict(kind="alpha-hist", prog=prog, shape=sh))
+    # ... and at the edge of the floating-point range, for the operators whose definition involves no squares (a product
+    # like eps*|x| formed before a division overflows at 1e155 although the result is representable)
+    for prog in LEAVES:
+        if prog["p"] in ("L1Reg", "LInfProj", "L1Proj", "Box"):
+            for c in (1e155, 1e-155, 1e300):
+                for dt in ("f64", "c128"):
+                    if prog["p"] == "Box" and dt.startswith("c"):
+                        continue
+                    cases.append(dict(kind="prox-scale", prog=prog, c=c, dtype=dt))
     for n in (2, 3):
         for alpha in (0.5, 2.0):
             cases.append(dict(kind="psd", n=n, alpha=alpha))
